@@ -434,3 +434,49 @@ def describe(s):
     if p[0] == 'F': return 'float(%s,%s)' % (p[1], p[2])
     return 'custom'
   return sp(s)
+
+# ------------------------------------------------------------------------------------------------
+# systematic family: a decision point inside a candidate of a multi-choice, active once / twice
+def shared_point_family(ks=(2, 3)):
+  """For every decision-point kind (choice, float, custom) x named/unnamed, placed inside candidate 1 of a
+  manyof(k, [const, <inner>, const]) in all four distinct x sorted modes: the specification together with DNAs
+  that pick that candidate once, twice with equal sub-values and twice with different sub-values (the last two
+  only exist when the multi-choice is not distinct).  A named inner point is then one *name* shared by several
+  active decisions.  Returns [(label, spec, [(dna_label, sdna), ...]), ...]."""
+  out = []
+  inners = {
+      'choice': (lambda name: ('C', 1, [('S', []), ('S', [])], True, False, ('q',), name, ()), [('c', [(0, [])]), ('c', [(1, [])])]),
+      'choice+lits': (lambda name: ('C', 1, [('S', []), ('S', [])], True, False, ('q',), name, ('u', 'v')), [('c', [(0, [])]), ('c', [(1, [])])]),
+      'float': (lambda name: ('F', 0.0, 1.0, ('q',), name), [('f', 0.25), ('f', 0.75)]),
+      'custom': (lambda name: ('X', ('q',), name), [('s', 'u'), ('s', 'v w')]),
+  }
+  for k in ks:
+    for dist, srt in [(True, True), (True, False), (False, True), (False, False)]:
+      for kind, (mkinner, (va, vb)) in inners.items():
+        for named in (False, True):
+          for outer_named in ((False, True) if named else (False,)):
+            inner = mkinner('inner' if named else None)
+            outer = ('C', k, [('S', []), ('S', [inner]), ('S', [])], dist, srt, ('m',), 'outer' if outer_named else None, ())
+            spec = ('S', [outer])
+            def dna(idx, vals):
+              it = iter(vals)
+              return [('c', [(c, [next(it)] if c == 1 else []) for c in idx])]
+            dnas = []
+            if k == 2:
+              dnas.append(('once', dna([0, 1], [va])))
+              if not dist:
+                dnas.append(('twice-equal', dna([1, 1], [va, va])))
+                dnas.append(('twice-different', dna([1, 1], [va, vb])))
+                dnas.append(('twice-different-rev', dna([1, 1], [vb, va])))
+            else:
+              dnas.append(('once', dna([0, 1, 2], [vb])))
+              if not dist:
+                dnas.append(('twice-different', dna([0, 1, 1], [va, vb])))
+                dnas.append(('thrice-mixed', dna([1, 1, 1], [vb, va, vb])))
+                dnas.append(('twice-equal', dna([1, 1, 2], [vb, vb])))
+                if not srt:
+                  dnas.append(('twice-different-apart', dna([1, 0, 1], [vb, va])))
+            dnas = [(l, d) for l, d in dnas if valid(spec, d)]
+            label = 'k%d%s%s/%s/%s%s' % (k, 'D' if dist else '', 'S' if srt else '', kind, 'named' if named else 'unnamed', '+outer-named' if outer_named else '')
+            out.append((label, spec, dnas))
+  return out
